@@ -102,21 +102,43 @@ var nullSafeComparisonFuncs = map[string]string{
 	">=": "__null_safe_ge",
 }
 
+// nullSafeArithmeticFuncs: in the tolerant variant arithmetic with a NULL (or
+// otherwise unusable) operand yields NULL instead of failing, so that
+// `max(u) - min(t) > 3 OR count(*) >= 2` still counts its second disjunct.
+var nullSafeArithmeticFuncs = map[string]string{
+	"+": "__null_safe_add",
+	"-": "__null_safe_sub",
+	"*": "__null_safe_mul",
+	"/": "__null_safe_div",
+	"%": "__null_safe_mod",
+}
+
 type nullSafeComparisonPatcher struct{}
 
 func (nullSafeComparisonPatcher) Visit(node *ast.Node) {
-	bn, ok := (*node).(*ast.BinaryNode)
-	if !ok {
-		return
+	switch n := (*node).(type) {
+	case *ast.BinaryNode:
+		fn, ok := nullSafeComparisonFuncs[n.Operator]
+		if !ok {
+			fn, ok = nullSafeArithmeticFuncs[n.Operator]
+		}
+		if !ok {
+			return
+		}
+		ast.Patch(node, &ast.CallNode{
+			Callee:    &ast.IdentifierNode{Value: fn},
+			Arguments: []ast.Node{n.Left, n.Right},
+		})
+	case *ast.MemberNode:
+		// a.b / a[0] on a NULL, missing or scalar parent is NULL, not a failure
+		if n.Method {
+			return
+		}
+		ast.Patch(node, &ast.CallNode{
+			Callee:    &ast.IdentifierNode{Value: "__member_or_nil"},
+			Arguments: []ast.Node{n.Node, n.Property},
+		})
 	}
-	fn, ok := nullSafeComparisonFuncs[bn.Operator]
-	if !ok {
-		return
-	}
-	ast.Patch(node, &ast.CallNode{
-		Callee:    &ast.IdentifierNode{Value: fn},
-		Arguments: []ast.Node{bn.Left, bn.Right},
-	})
 }
 
 var (
@@ -147,8 +169,55 @@ func compareNonNull(op string, a, b any) bool {
 	return r
 }
 
+// binaryNonNull applies one of expr-lang's own binary operators to two operands.
+func binaryNonNull(op string, a, b any) (any, bool) {
+	binaryProgramsOnce.Do(func() {
+		binaryPrograms = make(map[string]*vm.Program, len(nullSafeArithmeticFuncs))
+		for o := range nullSafeArithmeticFuncs {
+			if p, err := expr.Compile("a "+o+" b", expr.AllowUndefinedVariables()); err == nil {
+				binaryPrograms[o] = p
+			}
+		}
+	})
+	p := binaryPrograms[op]
+	if p == nil {
+		return nil, false
+	}
+	out, err := expr.Run(p, map[string]any{"a": a, "b": b})
+	if err != nil {
+		return nil, false
+	}
+	return out, true
+}
+
+var (
+	binaryProgramsOnce sync.Once
+	binaryPrograms     map[string]*vm.Program
+)
+
 func nullSafeComparisonOptions() []expr.Option {
-	opts := make([]expr.Option, 0, len(nullSafeComparisonFuncs)+1)
+	opts := make([]expr.Option, 0, len(nullSafeComparisonFuncs)+len(nullSafeArithmeticFuncs)+2)
+	for op, name := range nullSafeArithmeticFuncs {
+		op := op
+		opts = append(opts, expr.Function(name, func(params ...any) (any, error) {
+			if len(params) != 2 || isNilValue(params[0]) || isNilValue(params[1]) {
+				return nil, nil
+			}
+			out, _ := binaryNonNull(op, params[0], params[1])
+			return out, nil
+		}, new(func(any, any) any)))
+	}
+	opts = append(opts, expr.Function("__member_or_nil", func(params ...any) (res any, err error) {
+		if len(params) != 2 || isNilValue(params[0]) {
+			return nil, nil
+		}
+		defer func() {
+			if r := recover(); r != nil {
+				res, err = nil, nil // scalar parent, index out of range, ...
+			}
+		}()
+		return runtime.Fetch(params[0], params[1]), nil
+	}, new(func(any, any) any)))
 	for op, name := range nullSafeComparisonFuncs {
 		op := op
 		opts = append(opts, expr.Function(name, func(params ...any) (any, error) {
